@@ -95,9 +95,11 @@ def runseed(name, checks):
                                 stderr=subprocess.STDOUT, text=True, timeout=3000)
             rc, o = p0.returncode, p0.stdout
             lines = [l for l in o.split("\n") if l.startswith("VIOLATION") or l.startswith("KNOWN-FINDING")]
-            out[c] = {"exit": rc, "lines": lines[:4], "wall_s": round(time.time() - t0, 1)}
-            print(c, rc, lines[:3])
-            for l in lines[:1]:
+            viol = [l for l in lines if l.startswith("VIOLATION")]
+            known = [l[:160] for l in lines if l.startswith("KNOWN-FINDING")]
+            out[c] = {"exit": rc, "lines": viol[:6], "known_lines": known, "wall_s": round(time.time() - t0, 1)}
+            print(c, rc, viol[:3])
+            for l in viol[:1]:
                 m = re.search(r"replay=(\S+)", l)
                 if m and os.path.exists(m.group(1)):
                     r = json.load(open(m.group(1)))
